@@ -263,7 +263,11 @@ Section FailFS.
     same_res (wstep base_step T ok_func comp_prog w1 c) (wstep base_step (strip_table T) ok_func comp_prog w2 c).
   Proof.
     intros Hs. unfold Wrapper.wstep. apply call_obj_strip; [|exact Hs].
-    intros cp w1' w2' a bind Hs'. apply run_prog_strip. exact Hs'.
+    intros cp w1' w2' a bind Hs'. unfold comp_cb.
+    pose proof (run_prog_strip (comp_prog cp a) w1' w2' (c_obj c) bind [] [] Hs') as [Ha [Hb Ho]].
+    destruct Hs' as [_ Ho'].
+    split; cbn [fst snd]; [exact Ha|]. split; cbn [w_base w_objs]; [exact Hb|].
+    unfold prune. rewrite Ha, Ho, Ho'. reflexivity.
   Qed.
 
   (* ALL histories, including the files and sub file systems handed out: with a failure
@@ -468,7 +472,10 @@ Section ReadOnly.
     all_wrapped (w_objs w) -> keeps w (wstep base_step T ff comp_prog w c).
   Proof.
     intros Hw. unfold Wrapper.wstep. apply call_obj_ro; [|exact Hw].
-    intros cp w' a bind Hw'. apply run_prog_ro. exact Hw'.
+    intros cp w' a bind Hw'. unfold comp_cb.
+    destruct (run_prog_ro (comp_prog cp a) w' (c_obj c) bind [] Hw') as [Ht Ha].
+    split; cbn [fst snd w_base w_objs]; [exact Ht|].
+    intros id o Hin. unfold prune in Hin. apply filter_In in Hin as [Hin _]. eapply Ha; eauto.
   Qed.
 
   (* ALL histories under the read-only failure function, closure over handed-out objects *)
